@@ -2,6 +2,7 @@
 mod common;
 mod driver_r;
 mod buildstep;
+mod engine_b;
 mod engine_d;
 mod engine_n;
 mod engine_r;
@@ -53,6 +54,7 @@ fn real_main(args: &[String]) -> i32 {
                 "C05" | "C06" | "C07" | "C08" => driver_r::check_main(prop, tier),
                 "C19" => engine_n::check_main(tier),
                 "C15" => engine_d::check_main(tier),
+                "C18" => engine_b::check_main(tier),
                 _ => usage(),
             }
         }
@@ -70,6 +72,7 @@ fn real_main(args: &[String]) -> i32 {
                 Some("R") => driver_r::replay_main(p, quiet),
                 Some("N") => engine_n::replay_main(&v, p, quiet),
                 Some("D") => engine_d::replay_main(&v, p, quiet),
+                Some("B") => engine_b::replay_main(&v, p, quiet),
                 _ => {
                     eprintln!("harness error: unknown engine in {p}");
                     EXIT_HARNESS
